@@ -242,17 +242,25 @@ void ring_types_history(pbt::Source& src) {
                 bool back = op == 0;
                 make_room(s, back);
                 int v = (int)src.range(0, 99);
-                unsigned how = (unsigned)src.range(0, 2);
-                PBT_LOG("b" << s << (back ? ".push_back" : ".push_front") << (how == 0 ? "(const& " : how == 1 ? "(&& " : " via emplace(") << v << ")\n");
+                unsigned how = (unsigned)src.range(0, 4);
+                PBT_LOG("b" << s << (back ? ".push_back" : ".push_front")
+                            << (how == 0 ? "(const& " : how == 1 ? "(&& " : how == 2 ? " via emplace(&& " : how == 3 ? " via emplace(non-const lvalue " : "(non-const lvalue ") << v << ")\n");
                 if (how == 0) {
                     const T tmp(mk(v));
                     back ? r.push_back(tmp) : r.push_front(tmp);
                 } else if (how == 1) {
                     T tmp(mk(v));
                     back ? r.push_back(std::move(tmp)) : r.push_front(std::move(tmp));
-                } else {
+                } else if (how == 2) {
                     T tmp(mk(v));
                     back ? r.emplace_back(std::move(tmp)) : r.emplace_front(std::move(tmp));
+                } else {
+                    // a NON-CONST LVALUE argument is copied: the caller's object keeps its value
+                    T tmp(mk(v));
+                    if (how == 3) back ? r.emplace_back(tmp) : r.emplace_front(tmp);
+                    else back ? r.push_back(tmp) : r.push_front(tmp);
+                    PBT_CHECK(tmp == mk(v), "C16/ring-lvalue-argument-changed", "the caller's lvalue argument " << v << " of a push/emplace was modified: now " << M::show(tmp));
+                    pbt::label("push_nonconst_lvalue");
                 }
                 if (back) x.dq.push_back(v), pushed_back(x);
                 else x.dq.push_front(v), pushed_front(x);
@@ -280,19 +288,22 @@ void ring_types_history(pbt::Source& src) {
                 make_room(s, back);
                 unsigned from = (unsigned)src.range(0, 2); // front(), back(), [i]
                 size_t i = from == 0 ? 0 : from == 1 ? x.dq.size() - 1 : src.index(x.dq.size());
-                unsigned how = (unsigned)src.range(0, 3); // const&, emplace(const&), &&, emplace(&&)
+                unsigned how = (unsigned)src.range(0, 5); // const&, emplace(const&), &&, emplace(&&), non-const lvalue, emplace(non-const lvalue)
                 int v = x.dq[i];
                 bool fills = x.dq.size() + 1 == x.max;
-                PBT_LOG("b" << s << (back ? (how & 1 ? ".emplace_back(" : ".push_back(") : (how & 1 ? ".emplace_front(" : ".push_front(")) << (how >= 2 ? "std::move(" : "")
-                            << (from == 0 ? "front()" : from == 1 ? "back()" : "[" + std::to_string(i) + "]") << (how >= 2 ? ")" : "") << ") [own element " << v << (fills ? ", fills the buffer" : "") << "]\n");
+                PBT_LOG("b" << s << (back ? (how & 1 ? ".emplace_back(" : ".push_back(") : (how & 1 ? ".emplace_front(" : ".push_front(")) << (how == 2 || how == 3 ? "std::move(" : how >= 4 ? "non-const lvalue " : "")
+                            << (from == 0 ? "front()" : from == 1 ? "back()" : "[" + std::to_string(i) + "]") << (how == 2 || how == 3 ? ")" : "") << ") [own element " << v << (fills ? ", fills the buffer" : "") << "]\n");
                 T& srcel = from == 0 ? r.front() : from == 1 ? r.back() : r[i];
                 switch (how) {
                 case 0: back ? r.push_back(static_cast<const T&>(srcel)) : r.push_front(static_cast<const T&>(srcel)); break;
                 case 1: back ? r.emplace_back(static_cast<const T&>(srcel)) : r.emplace_front(static_cast<const T&>(srcel)); break;
                 case 2: back ? r.push_back(std::move(srcel)) : r.push_front(std::move(srcel)); break;
-                default: back ? r.emplace_back(std::move(srcel)) : r.emplace_front(std::move(srcel)); break;
+                case 3: back ? r.emplace_back(std::move(srcel)) : r.emplace_front(std::move(srcel)); break;
+                case 4: back ? r.push_back(srcel) : r.push_front(srcel); break; // T&: a copy, the source element keeps its value
+                default: back ? r.emplace_back(srcel) : r.emplace_front(srcel); break;
                 }
-                if (how >= 2) {
+                if (how >= 4) pbt::label("alias_push_nonconst_lvalue");
+                if (how == 2 || how == 3) {
                     // the source element is moved-from (valid, unspecified): the caller gives it a new value
                     int nv = (int)src.range(0, 99);
                     srcel = mk(nv);
